@@ -352,6 +352,12 @@ func suiteDaemonProc(h *H) {
 						}
 						run(fmt.Sprintf("%s:%s=%q", role, f.name, trunc(a, 40)), with(fLine(f.name, a)))
 					}
+					// this argument line left out (a client that forgets --server, --sender, the flags, the dot or the path)
+					{
+						c := append([]field{}, base[:i]...)
+						c = append(c, base[i+1:]...)
+						run(fmt.Sprintf("%s:without %s", role, f.name), c)
+					}
 					// an extra argument line in front of this one
 					for _, a := range argVocab {
 						if h.thorough() || h.rng.Intn(4) == 0 {
